@@ -17,6 +17,7 @@ import (
 	"context"
 	"errors"
 	"fmt"
+	"io"
 	"net"
 	"os"
 	"path/filepath"
@@ -210,6 +211,12 @@ type scenario struct {
 	Latin1Header bool   // non-conformant 8-bit header bytes: observed, never judged
 	ForeignSig   bool   // an unverifiable signature of an earlier hop is already present
 	NullSender   bool
+	// Fault injected into the queue -> target leg on the first Body call the
+	// real target receives: "" (none), body-read-error (the spool body reader
+	// fails after FaultPerMille/1000 of the body), body-open-error,
+	// header-write-error (a field the serialiser refuses sits below the others).
+	Fault         string
+	FaultPerMille int
 }
 
 func (s scenario) shape(m *message) string {
@@ -220,7 +227,7 @@ func (s scenario) shape(m *message) string {
 		}
 	}
 	sort.Strings(fs)
-	return fmt.Sprintf("%s/%s/%s/%s/eai=%v/%s/%s/%s/%s/%s", s.Algo, s.HC, s.BC, s.Fields, s.EAI, s.Domain.Kind, s.Variant, s.FailStage, s.Target, strings.Join(fs, ","))
+	return fmt.Sprintf("%s/%s/%s/%s/eai=%v/%s/%s/%s/%s/fault=%s/%s", s.Algo, s.HC, s.BC, s.Fields, s.EAI, s.Domain.Kind, s.Variant, s.FailStage, s.Target, s.Fault, strings.Join(fs, ","))
 }
 
 func genScenario(p *prng.R, i int, thorough bool) scenario {
@@ -274,6 +281,18 @@ func genScenario(p *prng.R, i int, thorough bool) scenario {
 		s.NullSender = true
 		s.Sender = ""
 		s.Domain = signDomains[0]
+	}
+	switch p.Intn(12) {
+	case 0, 1, 2:
+		s.Fault = "body-read-error"
+		s.FaultPerMille = p.Intn(1001)
+		if p.Chance(1, 6) {
+			s.FaultPerMille = prng.Pick(p, []int{0, 1, 999, 1000})
+		}
+	case 3:
+		s.Fault = "header-write-error"
+	case 4:
+		s.Fault = "body-open-error"
 	}
 	return s
 }
@@ -366,6 +385,123 @@ func (h *harness) verifyMaddy(payload []byte, sc *scenario, wantDomain string) v
 		cl = "key"
 	}
 	return verdict{Detail: strings.Join(details, "; "), Class: cl}
+}
+
+// ---- fault injection on the queue -> target leg ----
+
+// faultTarget passes everything through to the real target; on its first Body
+// call it substitutes what the real target is handed: a body buffer whose
+// reader fails like a bad spool file, a buffer that cannot be opened, or a
+// header whose last field the serialiser refuses. Later calls are untouched,
+// so the queue's retry delivers the intact message.
+type faultTarget struct {
+	inner  module.DeliveryTarget
+	kind   string
+	frac   int // per mille of the body handed out before the read error
+	mu     sync.Mutex
+	calls  int
+	fired  bool
+	cutAt  int
+}
+
+func (f *faultTarget) Name() string           { return "c08_fault_target" }
+func (f *faultTarget) InstanceName() string   { return "c08_fault_target" }
+func (f *faultTarget) Init(*config.Map) error { return nil }
+
+func (f *faultTarget) Start(ctx context.Context, meta *module.MsgMetadata, from string) (module.Delivery, error) {
+	d, err := f.inner.Start(ctx, meta, from)
+	if err != nil {
+		return nil, err
+	}
+	return &faultDelivery{Delivery: d, f: f}, nil
+}
+
+type faultDelivery struct {
+	module.Delivery
+	f *faultTarget
+}
+
+var errSpoolIO = errors.New("read c08 spool body: input/output error")
+
+type faultyBuffer struct {
+	buffer.Buffer
+	cut      int
+	failOpen bool
+}
+
+func (b faultyBuffer) Open() (io.ReadCloser, error) {
+	if b.failOpen {
+		return nil, errors.New("open c08 spool body: input/output error")
+	}
+	r, err := b.Buffer.Open()
+	if err != nil {
+		return nil, err
+	}
+	return &faultyReader{r: r, left: b.cut}, nil
+}
+
+type faultyReader struct {
+	r    io.ReadCloser
+	left int
+}
+
+func (r *faultyReader) Read(p []byte) (int, error) {
+	if r.left <= 0 {
+		return 0, errSpoolIO
+	}
+	if len(p) > r.left {
+		p = p[:r.left]
+	}
+	n, err := r.r.Read(p)
+	r.left -= n
+	if err == io.EOF {
+		// the file ends before the cut: still an error, never a clean end
+		return n, errSpoolIO
+	}
+	return n, err
+}
+func (r *faultyReader) Close() error { return r.r.Close() }
+
+func (d *faultDelivery) Body(ctx context.Context, hdr textproto.Header, body buffer.Buffer) error {
+	f := d.f
+	f.mu.Lock()
+	f.calls++
+	first := f.calls == 1
+	f.mu.Unlock()
+	if !first || f.kind == "" {
+		return d.Delivery.Body(ctx, hdr, body)
+	}
+	f.mu.Lock()
+	f.fired = true
+	f.mu.Unlock()
+	switch f.kind {
+	case "body-read-error":
+		cut := body.Len() * f.frac / 1000
+		f.mu.Lock()
+		f.cutAt = cut
+		f.mu.Unlock()
+		return d.Delivery.Body(ctx, hdr, faultyBuffer{Buffer: body, cut: cut})
+	case "body-open-error":
+		return d.Delivery.Body(ctx, hdr, faultyBuffer{Buffer: body, failOpen: true})
+	case "header-write-error":
+		// same fields in the same order, plus one at the very bottom that
+		// textproto.WriteHeader refuses after it has written all the others
+		var raws [][]byte
+		for fs := hdr.Fields(); fs.Next(); {
+			raw, err := fs.Raw()
+			if err != nil {
+				return d.Delivery.Body(ctx, hdr, body)
+			}
+			raws = append(raws, append([]byte(nil), raw...))
+		}
+		var bad textproto.Header
+		bad.Add("X-C08-Unwritable", "line one\r\nline two")
+		for k := len(raws) - 1; k >= 0; k-- {
+			bad.AddRaw(raws[k])
+		}
+		return d.Delivery.Body(ctx, bad, body)
+	}
+	return d.Delivery.Body(ctx, hdr, body)
 }
 
 // ---- one case ----
@@ -565,6 +701,8 @@ func (h *harness) runCase(c *rep.Case, i int) {
 		tgt = mod.(module.DeliveryTarget)
 	}
 	defer closeTgt()
+	ft := &faultTarget{inner: tgt, kind: sc.Fault, frac: sc.FaultPerMille}
+	tgt = ft // both queue instances deliver through the wrapper
 
 	// --- queue ---
 	dir, err := os.MkdirTemp("", "c08spool")
@@ -735,15 +873,39 @@ func (h *harness) runCase(c *rep.Case, i int) {
 	}
 	closeQ1()
 
-	tx := committed()
-	payload := tx.Data
+	// Every payload the next hop committed (2xx written for the final dot) has
+	// arrived there - also one of an attempt maddy itself counts as failed.
+	var commits []smtpd.TxnRecord
+	for _, tx := range srv.Txns() {
+		if tx.Committed {
+			commits = append(commits, tx)
+		}
+	}
+	if len(commits) == 0 {
+		c.Inconclusive("no committed transaction after the wait")
+		c.Done(shape, false)
+		return
+	}
+	payload := commits[len(commits)-1].Data
 	r.Count("payloads_captured", 1)
+	r.Count("committed_payloads_checked", int64(len(commits)))
+	r.Distinct("commits_per_case", fmt.Sprint(len(commits)))
 	nconn := srv.TotalConns()
 	if sc.FailStage != "" {
 		select {
 		case <-failed:
 			r.Count("deliveries_after_scripted_failure_at_"+sc.FailStage, 1)
 		default:
+		}
+	}
+	ft.mu.Lock()
+	faultFired, cutAt := ft.fired, ft.cutAt
+	ft.mu.Unlock()
+	if sc.Fault != "" {
+		if faultFired {
+			r.Count("faults_fired_"+sc.Fault, 1)
+		} else {
+			r.Count("faults_planned_but_not_reached", 1)
 		}
 	}
 	r.Count("variant_"+sc.Variant, 1)
@@ -756,26 +918,39 @@ func (h *harness) runCase(c *rep.Case, i int) {
 	r.Count("signing_domain_"+sc.Domain.Kind, 1)
 	r.Distinct("server_connections_per_case", fmt.Sprint(nconn))
 
-	// --- verification of the untampered payload ---
-	lib := h.verifyLib(payload, &sc, wantD)
-	mad := h.verifyMaddy(payload, &sc, wantD)
-	w.Lib, w.Maddy = lib.Detail, mad.Detail
-	if sc.Latin1Header {
-		// outside "RFC 5322-conformant header": recorded, not judged
-		if lib.Pass && mad.Pass {
-			r.Count("observed_nonconformant_8bit_header_verifies", 1)
-		} else {
-			r.Count("observed_nonconformant_8bit_header_fails", 1)
+	// --- verification of every committed payload, untampered ---
+	allPass := true
+	for ci, tx := range commits {
+		last := ci == len(commits)-1
+		lib := h.verifyLib(tx.Data, &sc, wantD)
+		mad := h.verifyMaddy(tx.Data, &sc, wantD)
+		if last {
+			w.Lib, w.Maddy = lib.Detail, mad.Detail
 		}
-		c.Done(shape, false)
-		return
-	}
-	if !lib.Pass || !mad.Pass {
-		diffClass, diff := firstDiff(signed, payload)
-		w.Signed, w.Received, w.DiffAt = clip(signed), clip(payload), diff
+		if lib.Pass && mad.Pass {
+			continue
+		}
+		allPass = false
+		if sc.Latin1Header {
+			continue
+		}
+		ww := w
+		ww.Lib, ww.Maddy = lib.Detail, mad.Detail
+		diffClass, diff := firstDiff(signed, tx.Data)
+		if len(tx.Data) < len(signed) && bytes.HasPrefix(signed, tx.Data) {
+			diffClass = "truncated"
+		}
+		ww.Signed, ww.Received, ww.DiffAt = clip(signed), clip(tx.Data), diff
 		qlogMu.Lock()
-		w.QueueLog = append([]string(nil), qlog...)
+		ww.QueueLog = append([]string(nil), qlog...)
 		qlogMu.Unlock()
+		for _, cr := range srv.Transcript() {
+			for _, cmd := range cr.Commands {
+				if len(ww.Server) < 60 {
+					ww.Server = append(ww.Server, fmt.Sprintf("c%d %s %.80q -> %q", cr.ID, cmd.Stage, cmd.Line, cmd.Reply))
+				}
+			}
+		}
 		who := "both-verifiers"
 		cl := lib.Class
 		if lib.Pass {
@@ -787,8 +962,36 @@ func (h *harness) runCase(c *rep.Case, i int) {
 		if !baseline.Pass {
 			base = "baseline-fails-too"
 		}
+		if sc.Fault != "" || !last {
+			// A fault on the way (or an attempt that was not the final one)
+			// must leave nothing committed; what IS committed must be the signed message.
+			cause := "no-fault-injected"
+			if sc.Fault != "" {
+				cause = "after-" + sc.Fault
+			}
+			which := "final-commit"
+			if !last {
+				which = "earlier-commit"
+			}
+			c.Violation(fmt.Sprintf("committed-payload-does-not-verify/%s/%s/payload-%s/err=%s/%s", cause, which, diffClass, cl, who),
+				fmt.Sprintf("the next hop committed (250 to the final dot) a payload that does not verify (commit %d of %d, fault %q cut at body byte %d, %d of %d bytes arrived): go-msgauth: %s; check.dkim: %s",
+					ci+1, len(commits), sc.Fault, cutAt, len(tx.Data), len(signed), lib.Detail, mad.Detail), ww)
+			continue
+		}
 		c.Violation(fmt.Sprintf("verify-fails-at-next-hop/%s/err=%s/header=%s/body=%s/%s/payload-%s", who, cl, sc.HC, sc.BC, base, diffClass),
-			fmt.Sprintf("signature made by modify.dkim (%s, %s/%s, d=%s) does not verify at the next hop: go-msgauth: %s; check.dkim: %s", sc.Algo, sc.HC, sc.BC, wantD, lib.Detail, mad.Detail), w)
+			fmt.Sprintf("signature made by modify.dkim (%s, %s/%s, d=%s) does not verify at the next hop: go-msgauth: %s; check.dkim: %s", sc.Algo, sc.HC, sc.BC, wantD, lib.Detail, mad.Detail), ww)
+	}
+	if sc.Latin1Header {
+		// outside "RFC 5322-conformant header": recorded, not judged
+		if allPass {
+			r.Count("observed_nonconformant_8bit_header_verifies", 1)
+		} else {
+			r.Count("observed_nonconformant_8bit_header_fails", 1)
+		}
+		c.Done(shape, false)
+		return
+	}
+	if !allPass {
 		c.Done(shape, true)
 		return
 	}
